@@ -78,9 +78,9 @@ package priority
 //@   effect gPset := store(gPset, p, false)
 
 //@ event send dsc.err (e)
-//@   requires [C07 C15] reported-error-is-the-divider-fault: gDivErr ==> e == ErrDividerBad
-//@   requires [C07 C15] only-real-errors-are-sent: e != nil
-//@   requires [C07] error-only-after-a-divider-fault: gDivErr
+//@   requires [C02 C07 C15] reported-error-is-the-divider-fault: gDivErr ==> e == ErrDividerBad
+//@   requires [C02 C07 C15] only-real-errors-are-sent: e != nil
+//@   requires [C02 C07] error-only-after-a-divider-fault: gDivErr
 
 //@ event close dsc.err
 //@ event close dsc.inputAdds
@@ -88,7 +88,7 @@ package priority
 
 // Stop() and GracefulStop() return when Complete() is called on their breaker.
 //@ event call breaker.(*Breaker).Complete (b) in (*Discipline).main
-//@   requires [C07] graceful-stop-returns-only-when-drained-and-released: gStop || gDivErr || (gInfl == 0 && (forall k :: in(gPset, k) ==> in(gClosedIn, k)))
+//@   requires [C02 C07] graceful-stop-returns-only-when-drained-and-released: gStop || gDivErr || (gInfl == 0 && (forall k :: in(gPset, k) ==> in(gClosedIn, k)))
 //@   requires [C02] everything-received-was-delivered: gStop || gDivErr || (!gPendSet && (forall k :: gOutNP[k] == gInN[k]))
 //@   effect gCompleted := true
 
@@ -103,8 +103,8 @@ package priority
 //@   modifies content(distribution), gDivErr
 //@   ensures [*] returns-the-map-it-was-given: distribution != nil ==> result == distribution
 //@   ensures [*] or-a-new-one: distribution == nil ==> (result == nil || fresh(result))
-//@   ensures [C07 C15] (distribution != nil) ==> (gDivErr <==> (old(gDivErr) || (msum(distribution) != old(msum(distribution)) && msum(distribution) - old(msum(distribution)) != dividend)))
-//@   ensures [C07 C15] (distribution == nil) ==> (gDivErr == old(gDivErr))
+//@   ensures [C02 C07 C15] (distribution != nil) ==> (gDivErr <==> (old(gDivErr) || (msum(distribution) != old(msum(distribution)) && msum(distribution) - old(msum(distribution)) != dividend)))
+//@   ensures [C02 C07 C15] (distribution == nil) ==> (gDivErr == old(gDivErr))
 //@   ensures [* C01 C15] unchecked-divisions-obey-the-sum-rule: distribution == nil ==> (msum(result) == 0 || msum(result) == dividend)
 
 // Well-formedness of the discipline state.
@@ -217,27 +217,27 @@ package priority
 //@   requires [* C15] vacants <= gH
 //@   modifies content(dsc.tactic), dsc.uncrowded, anyelems(dsc.uncrowded), gDivErr
 //@   ensures [* C01] result1 == nil ==> (msum(dsc.tactic) == 0 || msum(dsc.tactic) == vacants)
-//@   ensures [C07 C15] (gDivErr && !old(gDivErr)) ==> result1 == ErrDividerBad
-//@   ensures [C07 C15] old(gDivErr) ==> gDivErr
+//@   ensures [C02 C07 C15] (gDivErr && !old(gDivErr)) ==> result1 == ErrDividerBad
+//@   ensures [C02 C07 C15] old(gDivErr) ==> gDivErr
 //@   ensures [*] dsc.uncrowded.arr == 0 || dsc.uncrowded.arr != dsc.priorities.arr
-//@   ensures [C07 C15] result1 != nil ==> gDivErr
+//@   ensures [C02 C07 C15] result1 != nil ==> gDivErr
 
 //@ func (*Discipline).calcTactic
 //@   requires [*] WF(dsc)
 //@   ensures [*] WF(dsc)
 //@   modifies content(dsc.tactic), dsc.uncrowded, anyelems(dsc.uncrowded), gDivErr
 //@   ensures [* C01] (result1 == nil && result0) ==> RINV(dsc)
-//@   ensures [C07 C15] (gDivErr && !old(gDivErr)) ==> result1 == ErrDividerBad
-//@   ensures [C07 C15] old(gDivErr) ==> gDivErr
+//@   ensures [C02 C07 C15] (gDivErr && !old(gDivErr)) ==> result1 == ErrDividerBad
+//@   ensures [C02 C07 C15] old(gDivErr) ==> gDivErr
 //@   ensures [*] dsc.uncrowded.arr == 0 || dsc.uncrowded.arr != dsc.priorities.arr
-//@   ensures [C07 C15] result1 != nil ==> gDivErr
+//@   ensures [C02 C07 C15] result1 != nil ==> gDivErr
 
 //@ func (*Discipline).markInputAsDrained
 //@   requires [*] dsc != nil && dsc.inputs != nil
 //@   modifies content(dsc.inputs)
-//@   ensures [* C07] forall k :: dom(dsc.inputs, k) <==> (old(dom(dsc.inputs, k)) || k == priority)
-//@   ensures [* C07] forall k :: k != priority ==> dsc.inputs[k] == old(dsc.inputs[k])
-//@   ensures [* C07] dsc.inputs[priority].Drained && dsc.inputs[priority].Channel == old(dsc.inputs[priority].Channel)
+//@   ensures [* C02 C07] forall k :: dom(dsc.inputs, k) <==> (old(dom(dsc.inputs, k)) || k == priority)
+//@   ensures [* C02 C07] forall k :: k != priority ==> dsc.inputs[k] == old(dsc.inputs[k])
+//@   ensures [* C02 C07] dsc.inputs[priority].Drained && dsc.inputs[priority].Channel == old(dsc.inputs[priority].Channel)
 
 //@ func (*Discipline).recalcTactic
 //@   requires [*] WF(dsc)
@@ -245,20 +245,20 @@ package priority
 //@   modifies content(dsc.tactic), dsc.useful, anyelems(dsc.useful), gDivErr
 //@   ensures [*] WF(dsc)
 //@   ensures [* C01] result1 == nil ==> RINV(dsc)
-//@   ensures [C07 C15] (gDivErr && !old(gDivErr)) ==> result1 == ErrDividerBad
-//@   ensures [C07 C15] old(gDivErr) ==> gDivErr
-//@   ensures [C07 C15] gDivErr ==> result1 != nil || old(gDivErr)
-//@   ensures [C07 C15] result1 != nil ==> gDivErr
+//@   ensures [C02 C07 C15] (gDivErr && !old(gDivErr)) ==> result1 == ErrDividerBad
+//@   ensures [C02 C07 C15] old(gDivErr) ==> gDivErr
+//@   ensures [C02 C07 C15] gDivErr ==> result1 != nil || old(gDivErr)
+//@   ensures [C02 C07 C15] result1 != nil ==> gDivErr
 
 //@ func (*Discipline).isZeroActual
 //@   requires [*] dsc != nil && dsc.actual != nil
-//@   ensures [* C07 C15] result <==> msum(dsc.actual) == 0
+//@   ensures [* C02 C07 C15] result <==> msum(dsc.actual) == 0
 //@   loop 0
 //@     invariant [*] forall k :: in($visited, k) ==> dsc.actual[k] == 0
 
 //@ func (*Discipline).isDrainedInputs
 //@   requires [*] dsc != nil && dsc.inputs != nil
-//@   ensures [* C07] result <==> (forall k :: dom(dsc.inputs, k) ==> dsc.inputs[k].Drained)
+//@   ensures [* C02 C07] result <==> (forall k :: dom(dsc.inputs, k) ==> dsc.inputs[k].Drained)
 //@   loop 0
 //@     invariant [*] forall k :: in($visited, k) ==> dsc.inputs[k].Drained
 
@@ -268,7 +268,7 @@ package priority
 //@   [C02] forall k :: gOutNP[k] <= gInN[k]
 
 //@ pred DRAINED(dsc)
-//@   [C07] forall k :: (dom(dsc.inputs, k) && dsc.inputs[k].Drained) ==> in(gClosedIn, k)
+//@   [C02 C07] forall k :: (dom(dsc.inputs, k) && dsc.inputs[k].Drained) ==> in(gClosedIn, k)
 
 //@ func safeDivide
 //@   requires [*] divider != nil
@@ -278,10 +278,10 @@ package priority
 //@   requires [* C15] distribution != nil
 //@   requires [* C01 C15] msum(distribution) == 0
 //@   modifies content(distribution), gDivErr
-//@   ensures [* C01] honest-or-error: result == nil ==> (msum(distribution) == 0 || msum(distribution) == dividend)
-//@   ensures [C07 C15] fault-is-reported: (gDivErr && !old(gDivErr)) ==> result == ErrDividerBad
-//@   ensures [C07 C15] error-only-on-fault: result != nil ==> gDivErr
-//@   ensures [C07 C15] old(gDivErr) ==> gDivErr
+//@   ensures [* C01 C15] honest-or-error: result == nil ==> (msum(distribution) == 0 || msum(distribution) == dividend)
+//@   ensures [C02 C07 C15] fault-is-reported: (gDivErr && !old(gDivErr)) ==> result == ErrDividerBad
+//@   ensures [C02 C07 C15] error-only-on-fault: result != nil ==> gDivErr
+//@   ensures [C02 C07 C15] old(gDivErr) ==> gDivErr
 
 //@ func (*Discipline).calcVacants
 //@   requires [*] WF(dsc)
@@ -312,14 +312,14 @@ package priority
 //@   modifies content(dsc.tactic), content(dsc.actual), dsc.uncrowded, anyelems(dsc.uncrowded), gDivErr, gInfl, gInflP, gClock, gStop
 //@   ensures [*] WF(dsc)
 //@   ensures [* C01] (result1 == nil && !result0) ==> RINV(dsc)
-//@   ensures [C07 C15] (gDivErr && !old(gDivErr)) ==> result1 == ErrDividerBad
-//@   ensures [C07 C15] old(gDivErr) ==> gDivErr
-//@   ensures [C07 C15] result1 != nil ==> gDivErr
+//@   ensures [C02 C07 C15] (gDivErr && !old(gDivErr)) ==> result1 == ErrDividerBad
+//@   ensures [C02 C07 C15] old(gDivErr) ==> gDivErr
+//@   ensures [C02 C07 C15] result1 != nil ==> gDivErr
 //@   ensures [* C16] old(gStop) ==> gStop
 //@   ensures [* C16] result0 ==> gStop
 //@   loop 0
 //@     invariant [*] WF(dsc)
-//@     invariant [C07 C15] gDivErr == old(gDivErr)
+//@     invariant [C02 C07 C15] gDivErr == old(gDivErr)
 //@     invariant [* C16] old(gStop) ==> gStop
 
 //@ func (*Discipline).send
@@ -330,7 +330,7 @@ package priority
 //@   requires [*] WF(dsc)
 //@   requires [* C01] RINV(dsc)
 //@   requires [* C01] dsc.tactic[priority] >= 1
-//@   requires [C07 C15] !gDivErr
+//@   requires [C02 C07 C15] !gDivErr
 //@   requires [C16] !gCompleted
 //@   modifies content(dsc.tactic), content(dsc.actual), gInfl, gInflP, gClock, gStop, gIn, gInN, gOutNP, gPendSet, gPendP
 //@   ensures [*] WF(dsc)
@@ -347,21 +347,21 @@ package priority
 //@   requires [*] WF(dsc)
 //@   requires [*] in(gPset, priority)
 //@   requires [* C01] RINV(dsc)
-//@   requires [C07 C15] !gDivErr
+//@   requires [C02 C07 C15] !gDivErr
 //@   requires [C16] !gCompleted
-//@   requires [C07] DRAINED(dsc)
+//@   requires [C02 C07] DRAINED(dsc)
 //@   modifies content(dsc.tactic), content(dsc.actual), content(dsc.inputs), gInfl, gInflP, gClock, gClosedIn, gStop, gIn, gInN, gOutNP, gPendSet, gPendP
 //@   ensures [*] WF(dsc)
 //@   ensures [* C01] RINV(dsc)
 //@   ensures [* C01] result == msum(dsc.actual) - old(msum(dsc.actual))
-//@   ensures [C07] DRAINED(dsc)
+//@   ensures [C02 C07] DRAINED(dsc)
 //@   ensures [* C16] old(gStop) ==> gStop
 //@   loop 0
 //@     invariant [C02] SEQ2(dsc)
 //@     invariant [*] WF(dsc)
 //@     invariant [* C01] RINV(dsc)
 //@     invariant [* C01] processed == msum(dsc.actual) - old(msum(dsc.actual))
-//@     invariant [C07] DRAINED(dsc)
+//@     invariant [C02 C07] DRAINED(dsc)
 //@     invariant [* C16] old(gStop) ==> gStop
 
 //@ func (*Discipline).iou
@@ -370,21 +370,21 @@ package priority
 //@   requires [*] WF(dsc)
 //@   requires [*] in(gPset, priority)
 //@   requires [* C01] RINV(dsc)
-//@   requires [C07 C15] !gDivErr
+//@   requires [C02 C07 C15] !gDivErr
 //@   requires [C16] !gCompleted
-//@   requires [C07] DRAINED(dsc)
+//@   requires [C02 C07] DRAINED(dsc)
 //@   modifies content(dsc.tactic), content(dsc.actual), content(dsc.inputs), gInfl, gInflP, gClock, gClosedIn, gStop, gIn, gInN, gOutNP, gPendSet, gPendP
 //@   ensures [*] WF(dsc)
 //@   ensures [* C01] RINV(dsc)
 //@   ensures [* C01] result == msum(dsc.actual) - old(msum(dsc.actual))
-//@   ensures [C07] DRAINED(dsc)
+//@   ensures [C02 C07] DRAINED(dsc)
 //@   ensures [* C16] old(gStop) ==> gStop
 //@   loop 0
 //@     invariant [C02] SEQ2(dsc)
 //@     invariant [*] WF(dsc)
 //@     invariant [* C01] RINV(dsc)
 //@     invariant [* C01] processed == msum(dsc.actual) - old(msum(dsc.actual))
-//@     invariant [C07] DRAINED(dsc)
+//@     invariant [C02 C07] DRAINED(dsc)
 //@     invariant [* C16] old(gStop) ==> gStop
 
 //@ func (*Discipline).prioritize
@@ -392,21 +392,21 @@ package priority
 //@   ensures [C02] SEQ2(dsc)
 //@   requires [*] WF(dsc)
 //@   requires [* C01] RINV(dsc)
-//@   requires [C07 C15] !gDivErr
+//@   requires [C02 C07 C15] !gDivErr
 //@   requires [C16] !gCompleted
-//@   requires [C07] DRAINED(dsc)
+//@   requires [C02 C07] DRAINED(dsc)
 //@   modifies content(dsc.tactic), content(dsc.actual), content(dsc.inputs), gInfl, gInflP, gClock, gClosedIn, gStop, gIn, gInN, gOutNP, gPendSet, gPendP
 //@   ensures [*] WF(dsc)
 //@   ensures [* C01] RINV(dsc)
 //@   ensures [* C01] result == msum(dsc.actual) - old(msum(dsc.actual))
-//@   ensures [C07] DRAINED(dsc)
+//@   ensures [C02 C07] DRAINED(dsc)
 //@   ensures [* C16] old(gStop) ==> gStop
 //@   loop 0
 //@     invariant [C02] SEQ2(dsc)
 //@     invariant [*] WF(dsc)
 //@     invariant [* C01] RINV(dsc)
 //@     invariant [* C01] processed == msum(dsc.actual) - old(msum(dsc.actual))
-//@     invariant [C07] DRAINED(dsc)
+//@     invariant [C02 C07] DRAINED(dsc)
 //@     invariant [* C16] old(gStop) ==> gStop
 
 //@ func (*Discipline).getLimitedFeedback
@@ -432,15 +432,15 @@ package priority
 //@   requires [C02] SEQ2(dsc)
 //@   ensures [C02] SEQ2(dsc)
 //@   requires [*] WF(dsc)
-//@   requires [C07 C15] !gDivErr
+//@   requires [C02 C07 C15] !gDivErr
 //@   requires [C16] !gCompleted
-//@   requires [C07] DRAINED(dsc)
+//@   requires [C02 C07] DRAINED(dsc)
 //@   modifies content(dsc.tactic), content(dsc.actual), content(dsc.inputs), dsc.uncrowded, anyelems(dsc.uncrowded), dsc.useful, gDivErr, gInfl, gInflP, gClock, gClosedIn, gStop, gIn, gInN, gOutNP, gPendSet, gPendP
 //@   ensures [*] WF(dsc)
-//@   ensures [C07 C15] gDivErr ==> result1 == ErrDividerBad
-//@   ensures [C07 C15] result1 == nil ==> !gDivErr
-//@   ensures [C07 C15] result1 != nil ==> gDivErr
-//@   ensures [C07] DRAINED(dsc)
+//@   ensures [C02 C07 C15] gDivErr ==> result1 == ErrDividerBad
+//@   ensures [C02 C07 C15] result1 == nil ==> !gDivErr
+//@   ensures [C02 C07 C15] result1 != nil ==> gDivErr
+//@   ensures [C02 C07] DRAINED(dsc)
 //@   ensures [* C16] old(gStop) ==> gStop
 
 // ---------------------------------------------------------------- C17: inputs added and removed
@@ -484,23 +484,23 @@ package priority
 //@   ensures [*] PLIST(dsc)
 //@   ensures [* C17] forall k :: dom(dsc.inputs, k) <==> (old(dom(dsc.inputs, k)) || k == priority)
 //@   ensures [* C17] forall k :: k != priority ==> dsc.inputs[k] == old(dsc.inputs[k])
-//@   ensures [* C17 C07] registered-channel: dsc.inputs[priority].Channel == channel && !dsc.inputs[priority].Drained
+//@   ensures [* C02 C07 C17] registered-channel: dsc.inputs[priority].Channel == channel && !dsc.inputs[priority].Drained
 //@   assume-arith append-len[0]
 
 //@ func (*Discipline).updateInputs
 //@   requires [*] WFS(dsc)
 //@   requires [*] PLIST(dsc)
 //@   requires [*] len(dsc.priorities) == 0 && (forall k :: !dom(dsc.inputs, k)) && gPset == domset(inputs)
-//@   requires [C07 C15] !gDivErr
+//@   requires [C02 C07 C15] !gDivErr
 //@   modifies content(dsc.inputs), dsc.priorities, anyelems(dsc.priorities), dsc.strategic, gPerm, gInv, gDivErr
 //@   ensures [*] WF(dsc)
-//@   ensures [* C07] forall k :: dom(dsc.inputs, k) ==> !dsc.inputs[k].Drained
-//@   ensures [C07 C15] !gDivErr
+//@   ensures [* C02 C07] forall k :: dom(dsc.inputs, k) ==> !dsc.inputs[k].Drained
+//@   ensures [C02 C07 C15] !gDivErr
 //@   loop 0
 //@     invariant [*] WFS(dsc)
 //@     invariant [*] PLIST(dsc)
 //@     invariant [*] forall k :: dom(dsc.inputs, k) <==> in($visited, k)
-//@     invariant [* C07] forall k :: dom(dsc.inputs, k) ==> !dsc.inputs[k].Drained
+//@     invariant [* C02 C07] forall k :: dom(dsc.inputs, k) ==> !dsc.inputs[k].Drained
 
 // addInput runs right after an AddInput request was received (gPset already contains priority).
 //@ func (*Discipline).addInput
@@ -508,15 +508,15 @@ package priority
 //@   requires [*] strictlyDesc(dsc.priorities)
 //@   requires [*] PLIST(dsc)
 //@   requires [*] forall k :: in(gPset, k) <==> (dom(dsc.inputs, k) || k == priority)
-//@   requires [C07] forall k :: (k != priority && dom(dsc.inputs, k) && dsc.inputs[k].Drained) ==> in(gClosedIn, k)
-//@   requires [C07] !in(gClosedIn, priority)
+//@   requires [C02 C07] forall k :: (k != priority && dom(dsc.inputs, k) && dsc.inputs[k].Drained) ==> in(gClosedIn, k)
+//@   requires [C02 C07] !in(gClosedIn, priority)
 //@   modifies content(dsc.inputs), dsc.priorities, anyelems(dsc.priorities), dsc.strategic, gPerm, gInv, gDivErr
 //@   ensures [*] WF(dsc)
 //@   ensures [C17] added-channel-is-registered-under-priority: dsc.inputs[priority].Channel == channel && !dsc.inputs[priority].Drained && in(gPset, priority)
 //@   ensures [C17 C01] in-flight-accounting-untouched: forall k :: dsc.actual[k] == old(dsc.actual[k])
 //@   ensures [C17] other-inputs-untouched: forall k :: k != priority ==> dsc.inputs[k] == old(dsc.inputs[k])
-//@   ensures [C07] DRAINED(dsc)
-//@   ensures [C07 C15] gDivErr == old(gDivErr)
+//@   ensures [C02 C07] DRAINED(dsc)
+//@   ensures [C02 C07 C15] gDivErr == old(gDivErr)
 
 // removeInput runs right after a RemoveInput request was received (gPset no longer contains priority).
 //@ func (*Discipline).removeInput
@@ -524,42 +524,42 @@ package priority
 //@   requires [*] strictlyDesc(dsc.priorities)
 //@   requires [*] PLIST(dsc)
 //@   requires [*] forall k :: in(gPset, k) <==> (dom(dsc.inputs, k) && k != priority)
-//@   requires [C07] DRAINED(dsc)
+//@   requires [C02 C07] DRAINED(dsc)
 //@   modifies content(dsc.inputs), content(dsc.tactic), dsc.priorities, anyelems(dsc.priorities), dsc.strategic, gDivErr
 //@   ensures [*] WF(dsc)
 //@   ensures [C17] removed-input-is-never-read-again: !dom(dsc.inputs, priority) && !in(gPset, priority)
 //@   ensures [C17 C01] in-flight-accounting-untouched: forall k :: dsc.actual[k] == old(dsc.actual[k])
 //@   ensures [C17] other-inputs-untouched: forall k :: k != priority ==> dsc.inputs[k] == old(dsc.inputs[k])
-//@   ensures [C07] DRAINED(dsc)
-//@   ensures [C07 C15] gDivErr == old(gDivErr)
+//@   ensures [C02 C07] DRAINED(dsc)
+//@   ensures [C02 C07 C15] gDivErr == old(gDivErr)
 
 //@ func (*Discipline).loop
 //@   requires [C02] SEQ2(dsc)
 //@   ensures [C02] SEQ2(dsc)
 //@   requires [*] WF(dsc)
-//@   requires [C07 C15] !gDivErr
+//@   requires [C02 C07 C15] !gDivErr
 //@   requires [C16] !gCompleted
-//@   requires [C07] DRAINED(dsc)
+//@   requires [C02 C07] DRAINED(dsc)
 //@   modifies content(dsc.tactic), content(dsc.actual), content(dsc.inputs), dsc.priorities, anyelems(dsc.priorities), dsc.strategic, dsc.uncrowded, dsc.useful, gPerm, gInv, gDivErr, gInfl, gInflP, gClock, gClosedIn, gStop, gGraceful, gPset, gIn, gInN, gOutNP, gPendSet, gPendP
 //@   ensures [*] WF(dsc)
 //@   ensures [* C07 C15] gStop || gInfl == 0
-//@   ensures [C07 C15] gDivErr ==> result == ErrDividerBad
-//@   ensures [C07] result == nil ==> (gStop || (forall k :: in(gPset, k) ==> in(gClosedIn, k)))
-//@   ensures [C07 C15] result == nil ==> !gDivErr
-//@   ensures [C07 C15] result != nil ==> gDivErr
+//@   ensures [C02 C07 C15] gDivErr ==> result == ErrDividerBad
+//@   ensures [C02 C07] result == nil ==> (gStop || (forall k :: in(gPset, k) ==> in(gClosedIn, k)))
+//@   ensures [C02 C07 C15] result == nil ==> !gDivErr
+//@   ensures [C02 C07 C15] result != nil ==> gDivErr
 //@   ensures [C16] !gCompleted
 //@   loop 0
 //@     invariant [C02] SEQ2(dsc)
 //@     invariant [*] WF(dsc)
-//@     invariant [C07 C15] !gDivErr
-//@     invariant [C07] DRAINED(dsc)
+//@     invariant [C02 C07 C15] !gDivErr
+//@     invariant [C02 C07] DRAINED(dsc)
 
 //@ func (*Discipline).main
 //@   requires [C02] SEQ2(dsc)
 //@   requires [*] WF(dsc)
-//@   requires [C07 C15] !gDivErr
+//@   requires [C02 C07 C15] !gDivErr
 //@   requires [C16] !gCompleted
-//@   requires [C07] DRAINED(dsc)
+//@   requires [C02 C07] DRAINED(dsc)
 //@   modifies content(dsc.tactic), content(dsc.actual), content(dsc.inputs), dsc.priorities, anyelems(dsc.priorities), dsc.strategic, dsc.uncrowded, dsc.useful, gPerm, gInv, gDivErr, gInfl, gInflP, gClock, gClosedIn, gStop, gGraceful, gPset, gCompleted, gIn, gInN, gOutNP, gPendSet, gPendP
 
 //@ func Opts.isValid
@@ -680,13 +680,13 @@ package priority
 //@   effect gSInnerStop := true
 //@ functype CancelFunc()
 //@   modifies gSCancelled
-//@   ensures [C07 C16] gSCancelled
+//@   ensures [C02 C07 C16] gSCancelled
 //@ event call sync.(*WaitGroup).Wait (wg)
 //@   requires [C16] inner-discipline-is-stopped-first: gSInnerStop
 //@   requires [C16] handlers-are-cancelled-before-waiting: gSCancelled
 //@   effect gSWaited := true
 //@ event call breaker.(*Breaker).Complete (b) in (*Simple).main
-//@   requires [C07 C16] no-handle-call-is-running-when-stop-returns: gSWaited
+//@   requires [C02 C07 C16] no-handle-call-is-running-when-stop-returns: gSWaited
 
 //@ func (*Discipline).Stop
 //@   blocking
@@ -711,7 +711,7 @@ package priority
 //@ func (*Simple).main
 //@   requires [*] smpl != nil && smpl.opts.Handle != nil && smpl.priority != nil && smpl.wg != nil && smpl.breaker != nil && smpl.graceful != nil
 //@   requires [C01] gSSpawned == 0
-//@   requires [C07 C16] !gSWaited && !gSCancelled && !gSInnerStop
+//@   requires [C02 C07 C16] !gSWaited && !gSCancelled && !gSInnerStop
 //@   modifies gStop, gGraceful, gClock, gSSpawned, gSInnerStop, gSCancelled, gSWaited
 //@   ensures [C01] exactly-handlers-quantity-handlers: gSSpawned == smpl.opts.HandlersQuantity
 //@   loop 0
